@@ -16,15 +16,15 @@ Definition netcdf_reader : rterm :=
 Definition netcdf_loader : dterm := (mkdterm true true true true true).
 Definition mdcrd_reader : rterm :=
   mkrterm (BLoop (mklterm Vn (Sub Vs (Cst 1)) KBreak SBreakInner None))
-    (mkpterm true true true true) KByReading true (TSynth true true true).
+    (mkpterm true true true true) (KByReading false (Sub Vo Vi) Vo) true (TSynth true true true).
 Definition mdcrd_loader : dterm := (mkdterm true true true true true).
 Definition xyz_reader : rterm :=
   mkrterm (BLoop (mklterm Vn (Sub Vs (Cst 1)) KBreak SBreakInner None))
-    (mkpterm true true true true) KByReading true (TSynth true true true).
+    (mkpterm true true true true) (KByReading false (Sub Vo Vi) Vo) true (TSynth true true true).
 Definition xyz_loader : dterm := (mkdterm true true true true true).
 Definition lammpstrj_reader : rterm :=
   mkrterm (BLoop (mklterm Vn (Sub Vs (Cst 1)) KBreak SBreakInner None))
-    (mkpterm true true true true) KByReading true (TSynth true true true).
+    (mkpterm true true true true) (KByReading false (Sub Vo Vi) Vo) true (TSynth true true true).
 Definition lammpstrj_loader : dterm := (mkdterm true true true true true).
 Definition arc_reader : rterm :=
   mkrterm (BLoop (mklterm Vn (Sub Vs (Cst 1)) KBreak SBreakInner None))
